@@ -212,6 +212,9 @@ func walkCalls(e Expr, f func(string)) {
 	switch x := e.(type) {
 	case *ECall:
 		f(x.Fun)
+		if x.Recv != nil {
+			walkCalls(x.Recv, f)
+		}
 		for _, a := range x.Args {
 			walkCalls(a, f)
 		}
@@ -394,8 +397,12 @@ func locCond(l Loc, a string) string {
 	switch {
 	case l.All:
 		return "true"
+	case l.RowsOf != "":
+		return fmt.Sprintf("(exists ((j Int)) (! (and (<= 0 j) (< j %d) (= %s (select %s (idx %s j)))) :pattern ((select %s (idx %s j)))))", l.RowsN, a, l.RowsHeap, l.RowsOf, l.RowsHeap, l.RowsOf)
 	case l.MapRow:
 		return fmt.Sprintf("(= %s %s)", a, l.Addr)
+	case l.Region && l.Inner > 0:
+		return fmt.Sprintf("(and (= (ftag %s) (- 1)) (= (ftag (ibase %s)) (- 1)) (= (ibase (ibase %s)) %s) (<= %s (iidx (ibase %s))) (< (iidx (ibase %s)) %s) (<= 0 (iidx %s)) (< (iidx %s) %d))", a, a, a, l.Addr, l.Lo, a, a, l.Hi, a, a, l.Inner)
 	case l.Region:
 		e := a
 		extra := ""
@@ -447,6 +454,23 @@ func (fx *FnCtx) loopPath(head *ssa.BasicBlock) *Path {
 			p.loopStart[phi.Comment] = v
 		}
 	}
+	// deferred calls registered before the loop (Defer instructions in blocks dominating the head)
+	for _, b := range fx.fn.Blocks {
+		if b == head || !b.Dominates(head) {
+			continue
+		}
+		for _, in := range b.Instrs {
+			if d, ok := in.(*ssa.Defer); ok {
+				rec := deferRec{instr: d}
+				for _, a := range d.Call.Args {
+					rec.args = append(rec.args, p.val(a))
+				}
+				rec.fnVal = p.val(d.Call.Value)
+				p.defers = append(p.defers, rec)
+			}
+		}
+	}
+	p.defers0 = len(p.defers)
 	ls := fx.loopSpec(n)
 	c := p.specCtx()
 	c.loop = head
@@ -492,6 +516,9 @@ func (p *Path) arriveAtLoop(head, pred *ssa.BasicBlock) {
 	kind := "entry"
 	if back {
 		kind = "preserve"
+		if p.startLoop == head && len(p.defers) != p.defers0 {
+			p.unsupported("defer inside a loop body", nil)
+		}
 	}
 	// bind phi values along this edge
 	predIdx := -1
